@@ -99,6 +99,7 @@ struct Run
   std::vector<std::string> snaps;     // one per harness yield, in global order
   std::vector<int> mlog;
   std::vector<long> mlogSeq;
+  std::vector<long> mlogCall;   // tick taken when the call began (a shutdown() caller may return after a restart)
   std::vector<long> rsBegin;     // tick at which a successful restart (reset() + start()) began: the epoch boundary of the monitors
   std::vector<std::thread*> subThreads;
   std::vector<int> subTids;
@@ -244,7 +245,7 @@ void subMain(std::vector<Act> script)
   for (const Act& a : script) doCall(a);
 }
 
-void mlog(int code) { R->mlog.push_back(code); R->mlogSeq.push_back(R->tick++); }
+void mlog(int code, long call = -1) { R->mlog.push_back(code); long q = R->tick++; R->mlogSeq.push_back(q); R->mlogCall.push_back(call < 0 ? q : call); }
 
 void ctlMain(std::vector<MOp> ops);
 
@@ -275,12 +276,13 @@ void execOp(const MOp& op, bool owner)
   }
   else if (op.kind == "stop")
   {
+    long c0 = R->tick++;
     auto r = p.stop();
-    if (r.success) { mlog(7); mlog(4); }
+    if (r.success) { mlog(7, c0); mlog(4, c0); }
     else if (r.message.rfind("Drain failed", 0) == 0) mlog(5);
     else mlog(6);
   }
-  else if (op.kind == "sd") { p.shutdown(); mlog(7); }
+  else if (op.kind == "sd") { long c0 = R->tick++; p.shutdown(); mlog(7, c0); }
   else if (op.kind == "rs" && owner)
   {
     long t0 = R->tick++;
@@ -505,7 +507,7 @@ void runCase(const Case& c, const std::vector<std::string>& t)
       }
     if (first) s += "-";
     s += " mlog=";
-    for (std::size_t i = 0; i < R->mlog.size(); ++i) { char b[60]; std::snprintf(b, sizeof b, "%s%d@%ld", i ? "," : "", R->mlog[i], R->mlogSeq[i]); s += b; }
+    for (std::size_t i = 0; i < R->mlog.size(); ++i) { char b[60]; std::snprintf(b, sizeof b, "%s%d@%ld@%ld", i ? "," : "", R->mlog[i], R->mlogSeq[i], R->mlogCall[i]); s += b; }
     if (R->mlog.empty()) s += "-";
     s += " rsbegin=";
     for (std::size_t i = 0; i < R->rsBegin.size(); ++i) s += (i ? "," : "") + std::to_string(R->rsBegin[i]);
